@@ -574,7 +574,7 @@ static unsigned nodeAddr(int k, int dev) { return M[k].addr[dev]; }
 
 // ---- library sends to the peer (RTS/CTS). fault: 0 none, else see below. returns true if the peer received everything
 enum { F_NONE, F_DROP_RTS, F_DROP_CTS, F_DUP_CTS, F_DROP_DT, F_DUP_DT, F_SWAP_DT, F_DROP_ACK, F_PEER_ABORT, F_NEVER, F_LATE, F_HOLD, F_FOREIGN, F_REORDER_CTS, F_COUNT };
-static bool txRtsTransfer(Rng &R, int dev, unsigned peer, unsigned long pgn, const std::vector<unsigned char> &pl, int fault, int grant /*0 = random per CTS*/, int at = 0) {
+static bool txRtsTransfer(Rng &R, int dev, unsigned peer, unsigned long pgn, const std::vector<unsigned char> &pl, int fault, int grant /*0 = random per CTS*/, int at = 0, int thirdKind = 0, unsigned thirdAddr = 0) {
   int k = cur; unsigned me = nodeAddr(k, dev); int npk = ((int)pl.size() + 6) / 7;
   sendTP(dev, pgn, peer, pl, (int)R.below(3));
   if (!lastRet || !seenCM(me, peer, 16)) return false;
@@ -594,6 +594,13 @@ static bool txRtsTransfer(Rng &R, int dev, unsigned peer, unsigned long pgn, con
       else if (kind == 2) rxACK("rx", (peer + 7) % 250, me, 30, 5, pgn == 126996UL ? 126998UL : 126996UL);
       else if (kind == 3) rxCTS("rx", (peer + 7) % 250, me, 2, (unsigned)have + 1, pgn);           // CTS for our PGN from a node we are not talking to
       else rxABORT("rx", peer, me, 1, pgn == 126996UL ? 126998UL : 126996UL);
+    }
+    if (thirdKind && have + 1 >= faultAt / 2) {   // a control frame for OUR PGN from a node we are not (or no longer) talking to: the transfer in progress is unaffected
+      C.count("gen_third_party_control");
+      if (thirdKind == 1) rxABORT("rx", thirdAddr, me, 1 + (unsigned)(have % 3), pgn);
+      else if (thirdKind == 2) rxACK("rx", thirdAddr, me, (unsigned)pl.size(), (unsigned)npk, pgn);
+      else rxCTS("rx", thirdAddr, me, 0, 0xff, pgn);
+      thirdKind = 0;
     }
     if (fault == F_PEER_ABORT && !faultDone && have + 1 >= faultAt) { rxABORT("rx", peer, me, (unsigned)R.range(1, 3), pgn); C.count("gen_peer_abort"); return false; }
     int n = grant ? grant : (R.chance(1, 6) ? 255 : (int)R.range(1, R.chance(1, 2) ? 5 : 40));
@@ -921,6 +928,44 @@ static void generate(Rng &R, const char *fl) {
     }
     X("accdef 1"); X("st");
   }
+  // (8) late control frames of third nodes for the PGN being sent: an earlier transfer of PGN X to a silent peer C was abandoned
+  //     (or never existed), PGN X now goes to peer B; C's late Abort / EndOfMsgACK / hold for PGN X must not touch the transfer to B
+  int n8 = tierN(40, 600);
+  for (int i = 0; i < n8; i++) {
+    resetNode(R, fl, "reset", (int)R.range(1, 2), 5, R.chance(1, 2) ? 1 : 2, 40);
+    int dev = (int)R.below(M[0].nDev); unsigned long pgn = pickRtsPgn(R); unsigned third = PEER + 1 + (unsigned)R.below(20);
+    if (R.chance(1, 2)) { txRtsTransfer(R, dev, third, pgn, payload(R, (int)R.range(9, 60)), F_NEVER, 0); int gap = (int)R.range(60, 300); for (int g = 0; g < gap; g += 40) { T(40); X("poll"); } }
+    txRtsTransfer(R, dev, PEER, pgn, payload(R, (int)R.range(16, 120)), F_NONE, (int)R.range(1, 3), 0, 1 + (int)R.below(3), third);
+    X("st");
+  }
+  C.sample("third-party control: an Abort / EndOfMsgACK / CTS-hold for the PGN in transfer from a node that is not the transfer's peer (e.g. the silent peer of an abandoned earlier transfer of that PGN) arrives mid-transfer; the transfer must complete");
+  // (9) a sending peer with SOURCE ADDRESS 0 next to another source towards the same destination: the other source's transfer
+  //     occupies a lower slot and finishes (slot freed) while the session of address 0 is open
+  int n9 = tierN(40, 600);
+  for (int i = 0; i < n9; i++) {
+    int nslots = (int)R.range(2, 6); resetNode(R, fl, "reset", 1, nslots, R.chance(1, 2) ? 1 : 2, 40);
+    unsigned me = nodeAddr(0, 0); unsigned to = R.chance(1, 4) ? 255 : me; bool bam = to == 255;
+    struct Z { unsigned from; unsigned long pgn; std::vector<unsigned char> pl; int next, window, inWin; bool dead; };
+    Z zs[2]; unsigned other = (unsigned)R.range(1, 250); if (other == me) other = me + 1;
+    for (int k = 0; k < 2; k++) { zs[k].from = k == 0 ? other : 0; zs[k].pgn = TP_PGNS[(i + k) % 6]; zs[k].pl = payload(R, (int)R.range(16, 80)); zs[k].pl[0] = (unsigned char)(0xC0 + k); zs[k].next = 0; zs[k].window = 0; zs[k].inWin = 0; zs[k].dead = false; }
+    auto stepZ = [&](Z &z) {
+      if (z.dead) return; int npk = ((int)z.pl.size() + 6) / 7;
+      if (z.next == 0) { if (bam) { rxBAM("rx", z.from, (unsigned)z.pl.size(), (unsigned)npk, z.pgn); z.window = npk; } else { rxRTS("rx", z.from, to, (unsigned)z.pl.size(), (unsigned)npk, z.pgn); const Frame *c = seenCM(to, z.from, 17); if (!c) { z.dead = true; return; } z.window = c->buf[1]; } z.next = 1; z.inWin = 0; return; }
+      rxDT("rx", z.from, to, (unsigned)z.next, z.pl); z.next++; z.inWin++;
+      if (z.next > npk) { z.dead = true; return; }
+      if (!bam && z.inWin >= z.window) { const Frame *c = seenCM(to, z.from, 17); if (!c) { z.dead = true; return; } z.window = c->buf[1]; z.inWin = 0; }
+    };
+    int first = R.chance(3, 4) ? 0 : 1;                 // mostly the other source takes the lower slot
+    stepZ(zs[first]); T(R.below(5)); stepZ(zs[1 - first]);
+    bool mixed = R.chance(1, 3);
+    for (int step = 0; step < 200 && !(zs[0].dead && zs[1].dead); step++) {
+      int k = mixed ? (int)R.below(2) : (zs[first].dead ? 1 - first : first);
+      if (zs[k].dead) k = 1 - k;
+      stepZ(zs[k]); if (R.chance(1, 3)) T(R.below(bam ? 40 : 8));
+    }
+    X("st"); C.count("gen_peer_address_0");
+  }
+  C.sample("peer at source address 0: its RTS/CTS or BAM transfer runs while another source's transfer to the same destination finishes in a lower receive slot; every packet of address 0 must go to its own session (one delivery each, acknowledged)");
 }
 
 int main(int argc, char **argv) {
